@@ -367,7 +367,7 @@ func endToEnd(meta *common.Meta, tier string, rng interface{ Intn(int) int }, ou
 		{"gen_test.go", "// Code generated by tool. DO NOT EDIT.\n\n" + warnSrc("p", "GenTest")},
 		{"clean.go", "package p\n\nfunc Clean() int { return 1 }\n"},
 		// a diagnostic whose text quotes several lines of code (newlines, tabs, runs of blanks inside a string)
-		{"ml.go", "package p\n\nfunc run(f func() error) error { return f() }\n\nfunc ML(n int) error {\n\tvar err error\n\terr = run(func() error {\n\t\tif n > 0 {\n\t\t\tprintln(\"a   b\")\n\t\t\treturn nil\n\t\t}\n\t\treturn nil\n\t})\n\treturn err\n}\n"},
+		{"ml.go", "package p\n\nfunc run(f func() error) error { return f() }\n\nfunc ML(n int) error {\n\tvar err error\n\tif err = run(func() error {\n\t\tif n > 0 {\n\t\t\tprintln(\"a   b\")\n\t\t\treturn nil\n\t\t}\n\t\treturn nil\n\t}); err != nil {\n\t\treturn err\n\t}\n\treturn err\n}\n"},
 		{"sub/b.go", warnSrc("sub", "B")},
 		// the last package (by import path) and its last file are clean: the exit status must not depend on
 		// which file happens to be checked last
